@@ -59,6 +59,8 @@ w5 = [m for m in seeded if "-w5-" in m["id"]]
 w5first = sum(1 for m in w5 if m.get("first_verdict") == "caught")
 w6 = [m for m in seeded if "-w6-" in m["id"]]
 w6first = sum(1 for m in w6 if m.get("first_verdict") == "caught")
+w7 = [m for m in seeded if "-w7-" in m["id"]]
+w7first = sum(1 for m in w7 if m.get("first_verdict") == "caught")
 sec = r'''
 ---------------------------------------------------------------------------------------------------
 
@@ -281,6 +283,24 @@ Currently ''' + "%d changes, %d valid, %d caught" % (len(seeded), nvalid, ncaugh
   sub-agents confirmed as genuine defects and repaired: comment lines between an EBLIF statement and its data,
   a short `.latch` before a complete one.  Found by the thorough tier of C10 at depth 3 and repaired:
   `x.name = None` on a nameless element.
+* Wave 7 (''' + "%d changes, all 20 properties; three kinds asked for: undo pairs (an operation followed by its inverse), two handles on one thing getting out of step (aliasing), faults that need three conditions together: %d caught at once" % (len(w7), w7first) + r'''.
+  The misses led to: a held view of `instance.pins` compared with the container after every step (C02); C03 `%<n>%`
+  escapes taken literally, a port reshaped after a first export, and a name next to the sanitised form of a
+  sibling that an *earlier* cell also uses; the Verilog base gained the constants x / X / z / Z and assigns between
+  bits of one bus (C04, C06, C16); a netlist-wide clause that no two elements hold the same mutable metadata
+  container (C05, C06, C15, C18); the shape family - every sharing shape of a hierarchy up to five levels deep, each
+  level instancing the next once, twice, or once plus the level after next - in C08, C09, C11 and C12 (a cell that
+  only becomes shared while uniquify runs, two levels below the cell that was shared at the start); "undone" edits in
+  C11 (taken out and put back, also in bulk: nothing may be broken afterwards) and pins named through an equal handle
+  as query roots; edits made through such a handle in C12; the plugin switched off and on again before the queries
+  and the caller's list of roots left untouched in C13; comment lines in the EBLIF bases and the netlist-level data
+  in the later-parse comparison of C15; identifiers that are not derived from the names, the same one in every
+  scope of its kind, in C16; copies added after an export under capitalised identifiers and names with edge blanks
+  in C17; a second file read inside one C18 case; widen-then-narrow and in-place edits of a clone's property in C20.
+  Two machinery corrections came out of this wave: a crash of a check now exits 3 (one first-pass "caught" verdict
+  was an uncaught exception of the harness, exit status 1 without a VIOLATION line; it is recorded as missed), and
+  the runner confirms one observation per clause in turn, so that a reproducible clause is reached even when
+  dozens of unreproducible observations of a state-leaking change sort in front of it.
 '''
 path = os.path.join(V, "DESIGN.md")
 s = open(path).read()
